@@ -421,7 +421,7 @@ func (r *rewriter) rewriteFile() {
 	// imports whose only uses were replaced become blank imports
 	for _, is := range f.Imports {
 		path, _ := strconv.Unquote(is.Path.Value)
-		if path != "runtime" && path != "time" {
+		if path != "runtime" && path != "time" && path != "context" {
 			continue
 		}
 		local := path
@@ -581,6 +581,9 @@ func (r *rewriter) post(c *astapply.Cursor) bool {
 		case pkg == "time" && name == "AfterFunc":
 			r.st.Sites["afterfunc"]++
 			c.Replace(r.rt("AfterFunc"))
+		case pkg == "context" && name == "AfterFunc":
+			r.st.Sites["ctxafterfunc"]++
+			c.Replace(r.rt("CtxAfterFunc"))
 		case pkg == "runtime" && name == "Gosched":
 			r.st.Sites["gosched"]++
 			c.Replace(r.rt("Gosched"))
